@@ -18,6 +18,7 @@ DEVIATION_VIOLATES = {
     "http503": {"not_a_server_error", "status_code_conformance"},
     "undocumented": {"status_code_conformance"},
     "marker": {"sim_marker"},
+    "auth_not_enforced": {"ignored_auth"},
 }
 TRANSPORT_FAULTS = {"connect", "reset", "read_timeout", "chunked"}
 LIFECYCLE = {"delete_keeps", "delete_denied", "create_not_stored", "stale_read"}
@@ -120,9 +121,9 @@ class Peer:
         self.counts[key] = self.counts.get(key, 0) + 1
         if dev is not None:
             kind = dev["deviation"]
-            self.fired[kind] = self.fired.get(kind, 0) + 1
             r = self._deviate(kind, op, args, req, dev)
             if r is not None:
+                self.fired[kind] = self.fired.get(kind, 0) + 1
                 r.op = key
                 r.tag = kind
                 return r
@@ -144,6 +145,11 @@ class Peer:
             r = self._normal(op, args, req)
             r.headers = list(r.headers) + [("X-Sim-Bad", "1")]
             return r
+        if kind == "auth_not_enforced":
+            # the operation declares authentication but answers requests without valid credentials as if they had them
+            if getattr(op, "secured", False) and not self._authorised(req):
+                return self._normal(op, args, req, skip_auth=True)
+            return None
         if kind == "malformed_json":
             r = self._normal(op, args, req)
             if r.status != 204:
@@ -171,6 +177,8 @@ class Peer:
             r.body = dev.get("bytes", b'\xff\xfe{"a": "\x00\x01\x7f \xed\xa0\x80 \'quote\' \\"dq\\" : - #\n\r\t"}')
             if isinstance(r.body, str):
                 r.body = r.body.encode("latin-1")
+            if "text" in dev:
+                r.body = dev["text"].encode("utf-8")  # valid UTF-8 with characters YAML / JSON / XML writers must escape
             return r
         if kind == "hostile_header":
             r = self._normal(op, args, req)
@@ -277,10 +285,10 @@ class Peer:
             return any(k == exp["query"] and v == exp["value"] for k, v in req.query)
         return req.header(exp["header"]) == exp["value"]
 
-    def _normal(self, op, args, req: WireRequest) -> WireResponse:
+    def _normal(self, op, args, req: WireRequest, skip_auth: bool = False) -> WireResponse:
         c = self._coll(op.collection)
         store = self.store[op.collection]
-        if getattr(op, "secured", False) and not self._authorised(req):
+        if getattr(op, "secured", False) and not skip_auth and not self._authorised(req):
             self.fired["unauthorised"] = self.fired.get("unauthorised", 0) + 1
             return json_response(401, {"error": "unauthorised"}, headers=[("WWW-Authenticate", "Basic")])
         # declared header parameter
